@@ -76,8 +76,57 @@ def run(ck, module=("Properties_C01", "Properties_C01b"), theorems=THEOREMS, fin
     if corr and not ck.violations:
         last_corr["broken"] = "correspondence enc/dec/ver model vs implementation"
         ck.violation("correspondence model/implementation no longer checks (%d cases) but the round trip held on every explored input" % corr, last_corr, found_input=False)
+    if big:
+        production_runs(ck)
     if not finish:
         return
     return finish_proof(ck, rule=("every length 0..%d" % (5 * CH + 1) if big else "150 cases, lengths k*chunk+{-17..1} and block boundaries first") +
                         " with 64-byte chunks (BUF_SZ=4), cycling all 15 (cmode,hmode) and T in {1,2,3,4,5,16}; random key/seed/content from the seeded PRNG; each case = encrypt, then decrypt and verify the produced file with real threads. distinct = distinct (n,cmode,hmode,T)",
                         assumptions=["real-thread runs explore one OS schedule each (all schedules: C03/C04)", "chunk size is a compile-time constant: 64-byte chunks here; theorem is for every chunk size >= 1 block"])
+
+
+def production_runs(ck):
+    """the real 16 MiB chunk size: lengths around the chunk boundary, round trip + format facts checked with Python
+    (the extracted model is too slow at this size; the theorem covers every chunk size)"""
+    import hashlib, hmac as pyhmac, os
+    exe = ck.impl_driver()
+    r = ck.rng
+    env = dict(ck.env(), WV_TIMEOUT_MS="600000")
+    M = 16 << 20
+    sizes = [(M - 16, 4, 1, 0), (M - 1, 4, 2, 1), (M, 1, 3, 2), (2 * M + 3, 4, 4, 0), (M + 17, 2, 0, 1)]
+    PY = {0: "sha1", 1: "md5", 2: "sha256"}
+    for j, (n, T, cm, hm) in enumerate(sizes):
+        key, seed = rnd_key(r), rnd_seed(r)
+        pin, penc, pdec = [os.path.join(ck.scratch, "prod%d.%s" % (j, e)) for e in ("in", "wenc", "out")]
+        blk = os.urandom(1 << 20)
+        with open(pin, "wb") as f:
+            left = n
+            while left:
+                k = min(left, len(blk))
+                f.write(blk[:k])
+                left -= k
+        out = wv.run_lines([exe], ["a encp %d %d %d %s %s %s %s" % (cm, hm, T, key.hex(), seed.hex(), pin, penc)], shards=1, env=env, timeout=900)
+        out2 = wv.run_lines([exe], ["b decp %d %s %s %s" % (T, key.hex(), penc, pdec), "c verp %d %s %s" % (T, key.hex(), penc)], shards=1, env=env, timeout=900)
+        ck.cov["evaluations"] += 1
+        rep = {"class": None, "production_constants": True, "n": n, "T": T, "cmode": cm, "hmode": hm, "key": key.hex(), "seed": seed.hex(), "encrypt": out.get("a"), "decrypt": out2.get("b"), "verify": out2.get("c"),
+               "replay": "random content of n bytes; harness/drv.cpp built WITHOUT size overrides: encp cm hm T key seed in out; decp T key out back"}
+        ok = out.get("a") == "OK -" and out2.get("b") == "OK -" and out2.get("c") == "OK -"
+        if ok:
+            a, b = open(pin, "rb").read(), open(pdec, "rb").read()
+            f = open(penc, "rb").read()
+            chain = [hashlib.sha1(seed).digest()]
+            for _ in range(1, T):
+                chain.append(hashlib.sha1(chain[-1]).digest())
+            tag = pyhmac.new(key, f[48:], PY[hm]).digest()
+            if a != b:
+                ck.violation("decrypt(encrypt(P)) != P with the production chunk size (n = 16 MiB%+d)" % (n - M), rep)
+            elif len(f) != 48 + 20 * T + 16 * (n // 16 + 1) or f[48:48 + 20 * T] != b"".join(chain) or f[10:10 + len(tag)] != tag or any(f[10 + len(tag):48]):
+                ck.violation("file produced with the production chunk size does not have the documented length / IV chain / tag", rep)
+        else:
+            ck.violation("encrypt/decrypt/verify with the production chunk size did not all report success: %s %s %s" % (out.get("a"), out2.get("b"), out2.get("c")), rep)
+        for p in (pin, penc, pdec):
+            try:
+                os.remove(p)
+            except OSError:
+                pass
+    ck.cov["production_constant_runs"] = len(sizes)
